@@ -222,30 +222,65 @@ def main():
                         ck.evaluations += 2
                         if label == "jit" and len(set(a)) < len(a):
                             ck.nontrivial += 1
-                        for name, mrow, site in (("gibbs", gib[k], "gibbs_options"), ("mh", mh[k], "mh_options")):
-                            irow = rec[name][k]
-                            if len(irow) != K or not all(close_prob(irow[b], mrow[b]) for b in range(K)):
-                                ck.violation("kernel-row", {"mode": label, "a": a, "position": k, "impl": irow,
-                                                            "model": [str(x) for x in mrow], "model_float": [float(x) for x in mrow],
-                                                            "inst": I.inst},
-                                             key=dict(I.ctx(), site=site, field="probabilities"))
-                    if label == "jit":
-                        impl_rows[(I.key, tuple(a))] = rec
+                        # Gibbs: the row must BE the exact full conditional (functional clause)
+                        irow = rec["gibbs"][k]
+                        if len(irow) != K or not all(close_prob(irow[b], gib[k][b]) for b in range(K)):
+                            ck.violation("kernel-row", {"mode": label, "a": a, "position": k, "impl": irow,
+                                                        "model": [str(x) for x in gib[k]], "model_float": [float(x) for x in gib[k]],
+                                                        "inst": I.inst},
+                                         key=dict(I.ctx(), site="gibbs_options", field="probabilities"))
+                        # MH: the property asks for detailed balance (checked below on the implementation's rows);
+                        # the row must be a probability vector; equality with the documented proposal structure is informational
+                        irow = rec["mh"][k]
+                        if len(irow) != K or not all(x >= 0 and x == x for x in irow) or abs(sum(irow) - 1) > 1e-9:
+                            ck.violation("kernel-row", {"mode": label, "a": a, "position": k, "impl": irow, "what": "not a probability vector",
+                                                        "inst": I.inst}, key=dict(I.ctx(), site="mh_options", field="proper-row"))
+                        elif not all(close_prob(irow[b], mh[k][b]) for b in range(K)):
+                            ck.bump("mh_rows_differing_from_documented_proposal_structure")
+                    impl_rows[(label, I.key, tuple(a))] = rec
         log("rows %s done" % label)
     # ---- the implementation's own rows are stationary at the model's exact target ---------
     worst = 0.0
-    for k in keys:
+    worst_db = 0.0
+    for label in ("jit", "jit+cache", "py"):
+      for k in keys:
         I = insts[k]
         K, P = I.inst["K"], I.inst["P"]
         pin = {a: unlimb(d[0]["pinum"]) for a, d in I.states.items()}
         tot = sum(pin.values())
         pi = {a: pin[a] / tot for a in pin}     # float of exact ratio
+        # MH detailed balance on the implementation's rows:  pi(v) T(v->v') = pi(v') T(v'->v)
+        for a in pi:
+            ra = impl_rows.get((label, I.key, a))
+            if ra is None:
+                continue
+            for pos in range(P):
+                for b in range(K):
+                    if b == a[pos]:
+                        continue
+                    a2 = a[:pos] + (b,) + a[pos + 1:]
+                    if a2 < a:
+                        continue
+                    rb = impl_rows.get((label, I.key, a2))
+                    if rb is None:
+                        continue
+                    lhs = Fraction(pin[a]) * Fraction(ra["mh"][pos][b])
+                    rhs = Fraction(pin[a2]) * Fraction(rb["mh"][pos][a[pos]])
+                    ck.evaluations += 1
+                    scale = max(lhs, rhs)
+                    dev = float(abs(lhs - rhs) / scale) if scale > 0 else 0.0
+                    worst_db = max(worst_db, dev)
+                    if dev > 1e-9 or (lhs == 0) != (rhs == 0):
+                        ck.violation("detailed-balance", {"mode": label, "a": list(a), "b": list(a2), "position": pos,
+                                                          "T_ab": ra["mh"][pos][b], "T_ba": rb["mh"][pos][a[pos]],
+                                                          "pi_a_over_pi_b": float(Fraction(pin[a], pin[a2])), "rel_dev": dev, "inst": I.inst},
+                                     key=dict(I.ctx(), site="mh_options", field="detailed-balance"))
         for name in ("gibbs", "mh"):
             for pos in range(P):
                 out = dict.fromkeys(pi, 0.0)
                 ok = True
                 for a in pi:
-                    rec = impl_rows.get((I.key, a))
+                    rec = impl_rows.get((label, I.key, a))
                     if rec is None:
                         ok = False
                         break
@@ -259,9 +294,10 @@ def main():
                 worst = max(worst, dev)
                 ck.evaluations += 1
                 if dev > 1e-9:
-                    ck.violation("stationarity", {"kernel": name, "position": pos, "max_abs_dev": dev, "inst": I.inst},
+                    ck.violation("stationarity", {"mode": label, "kernel": name, "position": pos, "max_abs_dev": dev, "inst": I.inst},
                                  key=dict(I.ctx(), site=name + "_options", field="stationarity"))
     ck.note("max_stationarity_residual_impl_rows", worst)
+    ck.note("max_relative_detailed_balance_residual_impl_rows", worst_db)
     log("stationarity of implementation rows done")
 
     # ---- cross-check: Gibbs row ~ call-exact posterior x copy count (tolerance 1e-6, float32 arrays) ----
@@ -277,7 +313,7 @@ def main():
             ei += 1
             K, P = I.inst["K"], I.inst["P"]
             for a in I.states:
-                rec = impl_rows.get((I.key, a))
+                rec = impl_rows.get(("jit", I.key, a))
                 if rec is None:
                     continue
                 for pos in range(P):
@@ -297,7 +333,7 @@ def main():
     sa = sorted(any_I.states)[len(any_I.states) // 2]
     gib, mh = model_rows(any_I.states[sa], any_I.inst["K"])
     ck.sample({"kind": "state", "inst": any_I.inst, "a": list(sa), "model_gibbs_rows": [[str(x) for x in row] for row in gib],
-               "impl_gibbs_rows": impl_rows.get((any_I.key, sa), {}).get("gibbs")})
+               "impl_gibbs_rows": impl_rows.get(("jit", any_I.key, sa), {}).get("gibbs")})
 
     # ---- code -> spec: recorded sampler runs ----------------------------------------------
     n_grid = 40 if tier == "quick" else 300
@@ -351,11 +387,17 @@ def main():
         bad.append(c); expect.append("SortedAfterScan")
     if mcase:
         c = json.loads(json.dumps(mcase))
-        u = [e for e in c if e["op"] == "update"][0]
-        cur = u["a"][u["k"]]
-        j = (cur + 1) % len(u["pq"])
-        u["pq"][j] = (u["pq"][j] + 5000) % 1000000
-        bad.append(c); expect.append("MHRowIsMetropolisHastings")
+        best = None
+        for u in c:
+            if u["op"] != "update":
+                continue
+            cur = u["a"][u["k"]]
+            for j in range(len(u["pq"])):
+                if j != cur and (best is None or min(u["pq"][j], u["rq"][j]) > best[0]):
+                    best = (min(u["pq"][j], u["rq"][j]), u, j, cur)
+        _, u, j, cur = best
+        u["pq"][j], u["pq"][cur] = u["pq"][j] // 4, u["pq"][cur] + u["pq"][j] - u["pq"][j] // 4   # acceptance scaled down
+        bad.append(c); expect.append("MHDetailedBalance")
     if bad:
         _, rej = validate_traces(ck, bad, "corrupt", expect_reject=True)
         first = {}
